@@ -93,6 +93,8 @@ type Injector struct {
 	Inline      int     `json:"inline,omitempty"` // inline wire.NewSet(...) groups inside wire.Build
 	Panic       bool    `json:"panic,omitempty"`
 	Doc         bool    `json:"doc,omitempty"`
+	Unnamed     bool    `json:"unnamed,omitempty"`  // parameters written without names: func Init(T1, string) T
+	Variadic    bool    `json:"variadic,omitempty"` // the last parameter (an unnamed slice type) is written name ...Elem
 	// derived, for the driver and the reach probes
 	NeedCleanups int `json:"ncleanups"`
 	NeedErrs     int `json:"nerrs"`
@@ -183,6 +185,10 @@ func Generate(r *rand.Rand, k Knobs) *Module {
 			// same package name under two paths
 			p.Name = m.Pkgs[r.IntN(i)].Name
 			p.Path = fmt.Sprintf("d%d/%s", i, p.Name)
+		}
+		if r.IntN(6) == 0 {
+			// the directory (last element of the import path) is not the package name
+			p.Path = fmt.Sprintf("x%d/dir-of-%s.v%d", i, p.Name, i)
 		}
 		if usedPaths[p.Path] {
 			p.Path = fmt.Sprintf("d%d/%s", i, p.Name)
@@ -565,6 +571,18 @@ func (m *Module) genInjector(r *rand.Rand, k Knobs, p *Pkg, j int) *Injector {
 		}
 		usedNames[name] = true
 		inj.Params = append(inj.Params, Param{Name: name, Type: cut[i]})
+	}
+	// a parameter of unnamed slice type goes last and may be written variadic; all parameters may go unnamed
+	for i, pr := range inj.Params {
+		if m.Types[pr.Type.Idx].Kind == "uslice" {
+			last := len(inj.Params) - 1
+			inj.Params[i], inj.Params[last] = inj.Params[last], inj.Params[i]
+			inj.Variadic = r.IntN(2) == 0
+			break
+		}
+	}
+	if len(inj.Params) > 0 && r.IntN(8) == 0 {
+		inj.Unnamed = true
 	}
 	// build list
 	rootsSeen := map[int]bool{}
